@@ -167,9 +167,14 @@ class LRUTrieNode(object):
 
                 while True:
                     tail_block += LRU_TRIE_NODE_BLOCK_SIZE
-                    data = struct.unpack(
-                        LRU_TRIE_NODE_FORMAT, self.storage.read(tail_block)
-                    )
+                    tail_data = self.storage.read(tail_block)
+
+                    # The last node of a store that was cut short (e.g. by a
+                    # crash while it was being appended) may lack its tail
+                    if tail_data is None:
+                        break
+
+                    data = struct.unpack(LRU_TRIE_NODE_FORMAT, tail_data)
                     chars = data[LRU_TRIE_NODE_STEM]
 
                     chunks.append(chars)
